@@ -6,7 +6,7 @@ verus! {
 //@include shims/std_option.rs
 impl Duration { pub fn as_secs(&self) -> (r: u64) ensures r == self.secs { self.secs } }
 pub enum OperationError { Backend }
-pub enum Oauth2Error { AuthenticationRequired, InvalidRequest, ServerError(OperationError) }
+pub enum Oauth2Error { AuthenticationRequired, InvalidRequest, InvalidClientId, InvalidToken, ServerError(OperationError) }
 #[verifier::external_body] #[verifier::reject_recursive_types(T)] pub struct BTreeSet<T> { p: core::marker::PhantomData<T> }
 impl<T> BTreeSet<T> {
     #[verifier::external_body] pub fn default() -> (r: BTreeSet<T>) { unimplemented!() }
@@ -38,7 +38,9 @@ impl Arc<KeyObject> {
 }
 pub struct Url { pub o: u8 }
 impl Url { #[verifier::external_body] pub fn to_string(&self) -> (r: String) { unimplemented!() } }
-pub struct Oauth2RS { pub name: String, pub key_object: Arc<KeyObject>, pub prefer_short_username: bool, pub iss: Url }
+impl Url { #[verifier::external_body] pub fn clone(&self) -> (r: Url) { unimplemented!() } }
+pub struct ClaimMap { pub o: u8 }
+pub struct Oauth2RS { pub name: String, pub key_object: Arc<KeyObject>, pub prefer_short_username: bool, pub iss: Url, pub claim_map: ClaimMap }
 pub struct Oauth2RSInner { pub o: u8 }
 impl Oauth2RSInner {
     pub uninterp spec fn rs_of(&self, kid: Seq<char>) -> Option<Oauth2RS>;
@@ -53,6 +55,12 @@ impl Account {
     #[verifier::external_body] pub fn spn(&self) -> (r: &str) { unimplemented!() }
 }
 #[verifier::external_body] pub fn kvx_string_of(s: &str) -> (r: String) { unimplemented!() }
+// OIDC userinfo answer and its claim builders (contents are not part of the clause decided here)
+pub struct SClaims { pub o: u8 } pub struct ExtraClaims { pub o: u8 }
+pub enum OidcSubject { U(Uuid), S(String) }
+pub struct OidcToken { pub iss: Url, pub sub: OidcSubject, pub aud: String, pub iat: i64, pub nbf: Option<i64>, pub exp: i64, pub auth_time: Option<i64>, pub nonce: Option<String>, pub at_hash: Option<String>, pub acr: Option<String>, pub amr: Option<Vec<String>>, pub azp: Option<String>, pub jti: Option<String>, pub s_claims: SClaims, pub claims: ExtraClaims }
+#[verifier::external_body] pub fn s_claims_for_account(o2rs: &Oauth2RS, a: &Account, scopes: &BTreeSet<String>) -> (r: SClaims) { unimplemented!() }
+#[verifier::external_body] pub fn extra_claims_for_account(a: &Account, m: &ClaimMap, scopes: &BTreeSet<String>) -> (r: ExtraClaims) { unimplemented!() }
 #[verifier::external_body] pub fn kvx_uuid_string(u: Uuid) -> (r: String) { unimplemented!() }
 pub struct QueryServerReadTransaction { pub o: int }
 // C39: what check_oauth2_account_uuid_valid establishes when it returns an entry (unit account_valid proves it of the real function):
@@ -69,7 +77,11 @@ impl IdmServerProxyReadTransaction {
             let t = j.token();
             t.exp > ct.secs as i64 && oauth2_valid(self.qs_read, t.sub, t.extensions.session_id, t.extensions.parent_session_id, t.iat, ct) })
     }
+    // the client configuration for that client id (the code strips the borrow's lifetime through a raw pointer: replaced, R3)
+    #[verifier::external_body] pub fn kvx_rs_of(&self, client_id: &str) -> (r: Result<&'static Oauth2RS, Oauth2Error>) { unimplemented!() }
+    pub open spec fn token_justified(&self, jwsc: JwsCompact, ct: Duration) -> bool { self.active_justified(jwsc, ct) }
 //@extract oauth2_token_introspect_jwt
+//@extract oauth2_openid_userinfo
 }
 }
 fn main(){}
